@@ -551,18 +551,24 @@ class BaseSection(base.Sectionable):
             raise TypeError("'%s' object is not iterable" % type(obj_list).__name__)
 
         # Make sure only Sections and Properties with unique names will be added.
+        sec_names = []
+        prop_names = []
         for obj in obj_list:
-            if not isinstance(obj, BaseSection) and not isinstance(obj, BaseProperty):
+            if isinstance(obj, BaseSection):
+                if obj.name in self.sections or obj.name in sec_names:
+                    msg = "odml.Section.extend: Section with name '%s' already exists." % obj.name
+                    raise KeyError(msg)
+                sec_names.append(obj.name)
+
+            elif isinstance(obj, BaseProperty):
+                if obj.name in self.properties or obj.name in prop_names:
+                    msg = "odml.Section.extend: Property with name '%s' already exists." % obj.name
+                    raise KeyError(msg)
+                prop_names.append(obj.name)
+
+            else:
                 msg = "odml.Section.extend: Can only extend sections and properties."
                 raise ValueError(msg)
-
-            if isinstance(obj, BaseSection) and obj.name in self.sections:
-                msg = "odml.Section.extend: Section with name '%s' already exists." % obj.name
-                raise KeyError(msg)
-
-            if isinstance(obj, BaseProperty) and obj.name in self.properties:
-                msg = "odml.Section.extend: Property with name '%s' already exists." % obj.name
-                raise KeyError(msg)
 
         for obj in obj_list:
             self.append(obj)
